@@ -216,6 +216,14 @@ class SymProvider:
     def const(self, x):
         return Sym.const(x)
 
+    def same_truth(self, a, b):
+        return SymBool(self._b(a) == self._b(b))
+
+    def is_boolean(self, x):
+        import numpy
+
+        return isinstance(x, (bool, numpy.bool_, SymBool, z3.BoolRef))
+
 
 def model_to_inputs(model, inputs):
     """solver model -> concrete inputs (unit quaternions renormalised); returns a list of candidate input dicts"""
